@@ -199,26 +199,29 @@ Proof.
 Qed.
 
 Definition Poly_degree_format_roundtrip_stmt : Prop :=
-  forall (E : Type) (init : Z -> E) (P : list Z) (g : Z) (rs : list Z),
+  forall (E : Type) (init : Z -> E) (P : list Z) (old : list E) (rs : list Z),
     P <> [] -> Z.of_nat (length P) <= 2 ^ 63 -> head_nondigit rs ->
-    poly_read (elt_read init) (from_chars (poly_degfmt elt_write P ++ rs)) g = (map init P, after rs).
+    poly_read (elt_read init) (from_chars (poly_degfmt elt_write P ++ rs)) old = (map init P, after rs).
 
 Lemma poly_degree_format_roundtrip : Poly_degree_format_roundtrip_stmt.
 Proof.
-  intros E init P g rs HP Hlen Hr. unfold poly_read, poly_degfmt.
+  intros E init P old rs HP Hlen Hr. unfold poly_read, poly_degfmt, LONG_MIN, LONG_MAX.
   assert (Hl : 0 < Z.of_nat (length P)) by (destruct P; [contradiction|cbn [length]; lia]).
   rewrite <- app_assoc.
   assert (Hrev : rev P <> []) by (intro Er; apply (f_equal (@rev Z)) in Er; rewrite rev_involutive in Er; auto).
-  pose proof (num_get_roundtrip (- 2 ^ 63) (2 ^ 63 - 1) (Z.of_nat (length P) - 1) g []
+  pose proof (num_get_roundtrip (- 2 ^ 63) (2 ^ 63 - 1) (Z.of_nat (length P) - 1) (- 1) []
                 (flat_map (fun c => 32 :: elt_write c) (rev P) ++ rs)) as Hng.
   cbn [app] in Hng. rewrite Hng; [|lia|constructor|].
   2:{ destruct (rev P); [contradiction|reflexivity]. }
   clear Hng.
-  destruct (Z.ltb_spec (Z.of_nat (length P) - 1) 0); [lia|].
-  replace (S (Z.to_nat (Z.of_nat (length P) - 1))) with (length (rev P)) by (rewrite rev_length; lia).
   assert (Eaft : after (flat_map (fun c => 32 :: elt_write c) (rev P) ++ rs)
                  = from_chars ([] ++ flat_map (fun c => 32 :: elt_write c) (rev P) ++ rs)).
   { destruct (rev P); [contradiction|reflexivity]. }
-  rewrite Eaft. rewrite poly_read_coeffs_spec; auto.
+  rewrite Eaft. cbn [from_chars failb].
+  destruct (Z.ltb_spec (Z.of_nat (length P) - 1) 0); [lia|].
+  replace (S (Z.to_nat (Z.of_nat (length P) - 1))) with (length (rev P)) by (rewrite rev_length; lia).
+  change (mkS ([] ++ flat_map (fun c => 32 :: elt_write c) (rev P) ++ rs) false false)
+    with (from_chars ([] ++ flat_map (fun c => 32 :: elt_write c) (rev P) ++ rs)).
+  rewrite poly_read_coeffs_spec; auto.
   rewrite app_nil_r, map_rev, rev_involutive. reflexivity.
 Qed.
